@@ -34,10 +34,10 @@ OPS = ["set1", "set2", "eval", "call0", "compile", "jac0", "hess0", "solve:auto"
 META = dict(
     rule="one case = (model, operation history, observation); the solver quantifies over the point and over every value ever given to a parameter",
     bounds={
-        "quick": "5 models (parameter as coefficient, additive constant, constraint rhs, inside a Hessian entry / exp, inside vector elements, linear-looking), histories of length <= 3 over 11 operations (exhaustive: 11+121+1331 per model)",
+        "quick": "9 models (the elements of a VectorParameter used through list operands and updated with VectorParameter.set, parameter as coefficient, additive constant, constraint rhs, inside a Hessian entry / exp, inside vector elements, linear-looking), histories of length <= 3 over 11 operations (exhaustive: 11+121+1331 per model)",
         "thorough": "length <= 4 (exhaustive)",
     },
-    outside=["MatrixParameter / VectorParameter containers (not expression nodes)", "array-valued Parameter", "the solver reply (fixed non-branching reply; reply mapping is C06/C07)", "rounding (S7)"],
+    outside=["MatrixParameter (a plain array holder, not an expression node)", "array-valued Parameter", "the solver reply (fixed non-branching reply; reply mapping is C06/C07)", "rounding (S7)"],
     assumptions=["S4 in 'fixed' mode", "S1", "S2", "S6", "S7"],
     exhaustive_within_bounds=True,
 )
@@ -64,6 +64,11 @@ def models():
         # constraints WITHOUT decision variables (a budget between two parameters, a parameter against a number)
         dict(tag="parameter-only-constraints", obj=("bin", "+", sq(("bin", "-", X, P1)), sq(Y)), sense="min",
              cons=[("le", P1, P2), ("ge", ("bin", "+", X, Y), ("num", 1.0)), ("ge", ("bin", "*", P2, ("num", 2.0)), ("num", 1.0))], bounds={}),
+        # the parameters are the elements of ONE VectorParameter, used through a Python list of its elements and
+        # updated with VectorParameter.set(array)
+        dict(tag="vector-parameter", vparam=["p1", "p2"],
+             obj=("bin", "+", ("vsum", ("vbin", "*", ("vbin", "*", v2, v2), ("elst", [P1, P2]))), ("vsum", ("vrbin", "-", ("elst", [P2, P1]), v2))), sense="min",
+             cons=[("ge", ("vsum", ("vbin", "*", v2, ("elst", [P1, P2]))), ("num", 1.0))], bounds={}),
         dict(tag="linear-looking", obj=("bin", "+", ("bin", "*", P1, X), ("bin", "*", P2, Y)), sense="min", cons=[("le", ("bin", "+", X, Y), P1), ("ge", X, ("num", 0.0))], bounds={"y": (0.0, 5.0)}),
     ]
 
@@ -191,7 +196,13 @@ def _history_once(model, hist, planted=False, deep=False):
             k = "p1" if op == "set1" else "p2"
             nset[k] += 1
             cur[k] = SReal.var(f"{k}_{nset[k]}")
-            b.params[k].set(cur[k])
+            if model.get("vparam"):
+                arr = np.empty(len(model["vparam"]), dtype=object)
+                for i_, n_ in enumerate(model["vparam"]):
+                    arr[i_] = cur[n_]
+                b.vparam.set(arr)
+            else:
+                b.params[k].set(cur[k])
             continue
         if op == "eval":
             o, dom = oracle_value()
@@ -331,7 +342,10 @@ def replay(payload):
                 k = "p1" if op == "set1" else "p2"
                 nset[k] += 1
                 cur[k] = mv.get(f"{k}_{nset[k]}", 2.5) if use_model else rng.uniform(2.0, 3.0)
-                b.params[k].set(cur[k])
+                if model.get("vparam"):
+                    b.vparam.set([cur[n_] for n_ in model["vparam"]])
+                else:
+                    b.params[k].set(cur[k])
                 continue
             with np.errstate(all="ignore"):
                 if op == "eval":
